@@ -377,6 +377,10 @@ fn interpolate(lit: &str, exprs: &[String]) -> String {
             out.push(c);
         } else {
             out.push(c);
+            if c == '}' {
+                // A closing brace which closes nothing is a literal brace.
+                out.push(c);
+            }
         }
 
         if !back_slash {
